@@ -156,8 +156,21 @@ class Check(core.CheckBase):
         ver_a, ver_b = self.make(name_a), self.make(name_b)
         self.observe(('pair', name_a, name_b), name_a != name_b, case)
         self.stats['pairs'] += 1
-        less, greater, equal = bool(ver_a < ver_b), bool(ver_a > ver_b), bool(ver_a == ver_b)
         kinds = '%s-vs-%s' % (kind(name_a), kind(name_b))
+        # every comparison operator answers with a truth value for every pair of versions
+        import operator  # pylint: disable=import-outside-toplevel
+        for symbol, function in (('<', operator.lt), ('<=', operator.le), ('>', operator.gt), ('>=', operator.ge),
+                                 ('==', operator.eq), ('!=', operator.ne)):
+            try:
+                answer = function(ver_a, ver_b)
+                if answer is NotImplemented or not isinstance(bool(answer), bool):
+                    raise TypeError('answered %r' % (answer, ))
+            except Exception as e:  # pylint: disable=broad-except
+                found.append(self.violation('operator-raises|%s|%s' % (symbol, kinds),
+                                            '%s %s %s raises %r' % (name_a, symbol, name_b, e), case))
+        if found:
+            return found
+        less, greater, equal = bool(ver_a < ver_b), bool(ver_a > ver_b), bool(ver_a == ver_b)
         if [less, equal, greater].count(True) != 1:
             found.append(self.violation(
                 'trichotomy|' + kinds,
